@@ -26,7 +26,7 @@ RULE = (
     "case = vlib.gen_matrix.problems(hermitian=True): 1-4 blocks (sizes 1-3, states optionally interleaved), "
     "spectrum built by construction (cross-block gaps >= 2, in-block equal / partly equal / distinct), 1-3 "
     "parameters, first-order terms plus optional terms of total order 2-3, blocks of terms dropped at random, "
-    "selection none / fully_diagonalize tuple / boolean masks, representation dense / csr / sympy-exact. "
+    "selection none / fully_diagonalize tuple / boolean masks, representation dense / csr array / csr matrix / integer dtype / sympy-exact, input form whole matrices + subspace_indices / nested lists of separated blocks / whole matrices + unit eigenvectors, spectrum classes far-offset (4096, gaps 1/32), almost-equal levels (2^-44 apart), a vanishing H_0 block at a drawn position, K = 4 for small 3-parameter problems. "
     "Non-trivial = eliminated set non-empty AND some perturbation term is non-zero on it AND U_n != 0 at some checked "
     "order >= 2. Distinct = distinct case hash."
 )
